@@ -14,6 +14,21 @@ a *case* adds a consumer history "h": [kind, k].  Everything is enumerated (neve
                  MainStreamsInfo} (bit / attribute forgeries for names of < D segments); pairs of colliding names; a real
                  nested archive behind each of the 12 archive extensions of the README; oversize members (10 MiB + 1);
                  every proper prefix (truncation) of 7 base archives
+  7z attributes  (part attrs7z) every attribute word of ATTRS (Windows bits archive / read-only / hidden / directory /
+                 reparse point; p7zip Unix extension 0x8000 | st_mode << 16 for regular, set-uid, symbolic link, directory,
+                 character / block device, fifo, socket; the link mode without the extension flag) on an entry whose DATA
+                 is a link target (canary file or canary directory, absolute and ..-relative), in the shapes {link alone;
+                 link + a regular member of the SAME name, both orders; link to a directory + a regular member THROUGH it,
+                 both orders, link name with and without extension} x {only the link carries attributes, all entries do}
+                 x folder layout {solid, one folder per file} (thorough: x (coder {copy, lzma, lzma2} | copy with an
+                 encoded header), every canary spelling as the target)
+  same name      (part oversize) two entries with the SAME name, one within the per-member limit and one oversize, both
+                 orders, on every container (7z: copy / lzma, solid / one folder per file): the decision taken on one
+                 entry must not be applied to the bytes of the other
+  nested x kind  (part nested) a real archive of every kind {zip, 7z, tar, tar.gz, tar.bz2, tar.xz} behind every extension
+                 of the README's 12 AND of NEST_EXTRA (aliases the mimetypes tables map to tar/compressed types, e.g.
+                 .taz .tz .tar.br .tar.Z, and foreign archive formats), lower and upper case (quick: on zip-stored, plain
+                 tar and 7z; thorough: on all 7 containers, at depth 1 and 2)
   histories      exhaust; close() after k results; abandon after k (+ gc.collect()); generator.throw(RuntimeError) after k
                  (k = 0..n); the consumer's own loop body raises after k (k = 1..n); n = number of results of the archive
 
@@ -78,6 +93,15 @@ CANARIES = {
 CANARY_DOWN = ("reldown", "bsdown", "bsroot")
 CANARY_ORDER = list(CANARIES)
 CANARY_DIR = {"absdir": ("A", lambda r: f"{r}/canary"), "reldir": ("R", lambda r: "../../canary")}
+# 7z attribute words (kWinAttributes): Windows bits, and the p7zip Unix extension (bit 15 set, st_mode in the high word)
+_UX = 0x8000
+ATTRS = {
+    "arc": 0x20, "ro": 0x21, "hid": 0x22, "dir": 0x10, "rp": 0x420, "rpdir": 0x410,
+    "ureg": _UX | 0x20 | (0o100644 << 16), "usuid": _UX | 0x20 | (0o104755 << 16), "ulnk": _UX | 0x20 | (0o120777 << 16),
+    "ulnkbare": (0o120777 << 16), "udir": _UX | 0x10 | (0o040755 << 16), "uchr": _UX | (0o020666 << 16),
+    "ublk": _UX | (0o060660 << 16), "ufifo": _UX | (0o010644 << 16), "usock": _UX | (0o140755 << 16),
+}
+ATTRS_REGULAR = ("arc", "ro", "ureg", "usuid")          # words of an ordinary file: skip clauses stay judged by name
 W1 = {"n": {"w": 1}, "t": "REG"}
 W2 = {"n": {"w": 2}, "t": "REG"}
 
@@ -97,7 +121,7 @@ def render_name(nm, root):
     if "w" in nm:
         return f"w{nm['w']}.txt"
     if "big" in nm:
-        return "big.txt"
+        return "big.txt"          # {"big": 1} = oversize content, {"big": 0} = the same name with small content
     raise ValueError(nm)
 
 
@@ -126,6 +150,15 @@ NEST = {".zip": ("zip", None), ".7z": ("7z", None), ".tar": ("tar", None), ".tar
         ".tar.xz": ("tar", "xz"), ".txz": ("tar", "xz"), ".xz": ("tar", "xz")}
 
 
+# further extensions a nested archive may hide behind: aliases that the mimetypes tables (suffix_map / encodings_map) turn
+# into tar / compressed types, and archive formats the library does not read.  Fixed list (the tables differ between hosts).
+NEST_EXTRA = [".taz", ".tz", ".tar.br", ".tar.Z", ".tar.lzma", ".tar.lz", ".tar.zst", ".tbz", ".tb2", ".tlz", ".tzst", ".Z",
+              ".br", ".lzma", ".zst", ".jar", ".war", ".ear", ".rar", ".cab", ".cpio", ".zipx", ".tar.7z", ".tar.zip", ".gtar",
+              ".ustar"]
+NEST_KINDS = {"zip": ("zip", None), "7z": ("7z", None), "tar": ("tar", None), "tar.gz": ("tar", "gz"), "tar.bz2": ("tar", "bz2"),
+              "tar.xz": ("tar", "xz")}
+
+
 def nested_ext(name):
     low = name.lower()
     for ext in sorted(NEST, key=len, reverse=True):
@@ -134,9 +167,9 @@ def nested_ext(name):
     return None
 
 
-def nested_blob(ext, token):
+def nested_blob(ext, token, kind_id=None):
     inner = [{"name": "inner.txt", "data": (token + " text inside a nested archive\n").encode()}]
-    kind, comp = NEST[ext]
+    kind, comp = NEST_KINDS[kind_id] if kind_id else NEST[ext]
     if kind == "zip":
         return ZF.zipforge(inner)
     if kind == "7z":
@@ -189,10 +222,14 @@ def build(arch, root, seed):
         t = m.get("t", "REG")
         reasons = []
         cls = "Z"
+        oversize = bool(m["n"].get("big"))
         if "w" in m["n"]:
             cls = "B"
-        elif "big" in m["n"]:
+        elif oversize:
             cls, reasons = "X", ["oversize"]
+        elif t == "REG" and m.get("nb"):
+            # the member IS a real archive of kind m["nb"], whatever its extension says
+            cls, reasons = "X", sorted((set(skip_reasons(name)) - {"unsupported"}) | {"nested"})
         elif t == "REG":
             reasons = skip_reasons(name)
             if reasons:
@@ -201,15 +238,21 @@ def build(arch, root, seed):
         if fam == "7z" and (not has_data or es or dirattr or opts.get("no_streams")):
             # forged entry (stream / EmptyStream / attribute disagree): which bytes belong to which name is not defined
             cls, reasons = ("B" if cls == "B" else "Z"), []
+        if fam == "7z" and m.get("a") and m["a"] not in ATTRS_REGULAR:
+            # link / directory / device attribute words on an entry that owns a data stream: not judged by the skip clauses
+            cls, reasons = ("B" if cls == "B" else "Z"), []
         data = None
         if t == "REG" or t == "ZSYM":
             tok = tk.new(cls)
             info["tok"][tok] = (i, cls, reasons)
-            if t == "ZSYM":
+            if t == "ZSYM" or (t == "REG" and "l" in m):
+                # the member's data is a link target (zip symlink entry / 7z entry with a link attribute word)
                 data = render_name(m["l"], root).encode("utf-8", "surrogateescape")
                 del info["tok"][tok]
-            elif "big" in m["n"]:
+            elif oversize:
                 data = (tok + " oversize member\n").encode() + b"x" * (OVERSIZE - len(tok) - 17)
+            elif m.get("nb"):
+                data = nested_blob(None, tok, m["nb"])
             elif nested_ext(name):
                 data = nested_blob(nested_ext(name), tok)
             else:
@@ -217,7 +260,13 @@ def build(arch, root, seed):
         if cls == "X":
             info["xnames"][name] = reasons
         info["names"].append(name)
-        members.append((m, name, t, data))
+        members.append((m, name, t, data, cls))
+    # a name carried by a must-skip entry AND by an entry that may produce a result (same name twice) identifies nothing:
+    # such entries are judged by their content tokens only
+    for m, name, t, data, cls in members:
+        if cls != "X" and t == "REG":
+            info["xnames"].pop(name, None)
+    members = [x[:4] for x in members]
 
     if fam == "zip":
         method = 0 if cont == "zip-s" else 8
@@ -259,8 +308,8 @@ def build(arch, root, seed):
             d = {"name": name, "data": data if has_data else None}
             if es:
                 d["empty_stream_bit"] = True
-            if dirattr:
-                d["attrs"] = 0x10
+            if dirattr or m.get("a"):
+                d["attrs"] = (0x10 if dirattr else 0) | (ATTRS[m["a"]] if m.get("a") else 0)
             sm.append(d)
         blob = SZ.sevenz(sm, opts)
         apath = "arc.7z"
@@ -539,9 +588,18 @@ def shrinks(case):
         # the same "no stream behind this name" situation without forging the whole archive: phantom members
         yield {**case, "o": o2, "m": [m if "w" in m["n"] else {**m, "f": [0] + list((m.get("f") or [1, 0, 0])[1:])} for m in ms]}
         yield {**case, "o": o2}
-    if o.get("coder"):
-        yield {**case, "o": {k: v for k, v in o.items() if k != "coder"}}
+    for opt in ("coder", "layout", "header"):
+        if o.get(opt):
+            yield {**case, "o": {k: v for k, v in o.items() if k != opt}}
     for i, m in enumerate(ms):
+        if m.get("a"):
+            # no attribute word at all, then the plainest word of the same family (Unix extension / Windows bits)
+            yield {**case, "m": ms[:i] + [{k: v for k, v in m.items() if k != "a"}] + ms[i + 1:]}
+            plain = "ureg" if m["a"].startswith("u") else "arc"
+            if m["a"] != plain:
+                yield {**case, "m": ms[:i] + [{**m, "a": plain}] + ms[i + 1:]}
+        if m.get("nb") and m["nb"] != "zip":
+            yield {**case, "m": ms[:i] + [{**m, "nb": "zip"}] + ms[i + 1:]}
         if m.get("f"):
             f = list(m["f"])
             for j, dflt in ((2, 0), (1, 0), (0, 1)):
@@ -578,6 +636,8 @@ def _member_embeds(s, b):
     if any(x != d and x != y for x, y, d in zip(sf, bf, [1, 0, 0])):
         return False
     if ("l" in s) != ("l" in b) or ("l" in s and not _name_embeds(s["l"], b["l"])):
+        return False
+    if s.get("a") not in (None, b.get("a")) or s.get("nb") not in (None, b.get("nb")) or ("nb" in s) != ("nb" in b):
         return False
     return _name_embeds(s["n"], b["n"])
 
@@ -630,7 +690,12 @@ PLAIN = ("zip-s", "tar", "7z")          # containers that get the full name dept
 
 def bounds(tier):
     D = 2 if tier == "quick" else 3
-    return {"D": D, "D_compressed": D - 1, "D_types": D - 1, "D_types_compressed": max(1, D - 2)}
+    quick = tier == "quick"
+    return {"D": D, "D_compressed": D - 1, "D_types": D - 1, "D_types_compressed": max(1, D - 2),
+            "attr_words_7z": len(ATTRS), "attr_link_targets": (2 if quick else len(CANARY_ORDER)) + len(CANARY_DIR),
+            "attr_option_sets_7z": 2 if quick else 8,
+            "nested_extensions": len(NEST) + len(NEST_EXTRA), "nested_kinds": len(NEST_KINDS),
+            "nested_kind_containers": 3 if quick else 7, "same_name_oversize_pairs": 2 * (len(ZIPC + TARC) + 4)}
 
 
 def _arch_gen(tier, part):
@@ -671,12 +736,44 @@ def _arch_gen(tier, part):
         for i, target in enumerate(names(d)):
             yield i, {"c": arg, "m": [W1, {"n": lname, "t": "ZSYM", "l": target}]}
     else:
-        for i, a in enumerate(_small_part(kind)):
+        for i, a in enumerate(_small_part(kind, tier)):
             yield i, a
 
 
-def _small_part(kind):
-    if kind == "canary":
+def _attr_archives(tier):
+    """7z entries that carry an attribute word and whose data is a link target (see the module docstring)"""
+    quick = tier == "quick"
+    files = ["abs", "rel2"] if quick else list(CANARY_ORDER)
+    dirs = list(CANARY_DIR)
+    optsets = [{}, {"layout": "per_file"}]
+    if not quick:
+        optsets = [{**({"layout": lay} if lay else {}), **({"coder": cod} if cod else {}), **({"header": hd} if hd else {})}
+                   for lay in (None, "per_file") for cod in (None, "lzma", "lzma2") for hd in (None, "encoded")
+                   if not (cod and hd)]
+    for aid in ATTRS:
+        other = "ureg" if aid.startswith("u") else "arc"
+        for all_defined in (False, True):
+            def dress(m):
+                return {**m, "a": other} if all_defined else m
+            shapes = []
+            for kid in files:
+                link = {"n": gname("", "/", ".txt", ["l"]), "t": "REG", "a": aid, "l": {"k": kid}}
+                same = dress({"n": gname("", "/", ".txt", ["l"]), "t": "REG"})
+                shapes += [[link, dress(W1)], [link, same, dress(W1)], [same, link, dress(W1)]]
+            for did in dirs:
+                for ext in (".txt", ""):
+                    link = {"n": gname("", "/", ext, ["d"]), "t": "REG", "a": aid, "l": {"k": did}}
+                    through = dress({"n": gname("", "/", ".txt", ["d" + ext, "secret"]), "t": "REG"})
+                    shapes += [[link, through, dress(W1)], [through, link, dress(W1)]]
+            for ms in shapes:
+                for o in optsets:
+                    yield {"c": "7z", "m": ms, "o": dict(o)}
+
+
+def _small_part(kind, tier="quick"):
+    if kind == "attrs7z":
+        yield from _attr_archives(tier)
+    elif kind == "canary":
         lname = gname("", "/", ".txt", ["l"])
         for kid in CANARY_ORDER:
             nm = {"k": kid}
@@ -730,6 +827,15 @@ def _small_part(kind):
                 for e in (ext, ext.upper()):
                     for segs in (["n"], ["a", "n"]):
                         yield {"c": c, "m": [W1, {"n": gname("", "/", e, segs), "t": "REG"}]}
+        # a real archive of EVERY kind behind every extension (the README's and the aliases / foreign formats of NEST_EXTRA)
+        for c in (PLAIN if tier == "quick" else tuple(ZIPC + TARC + ["7z"])):
+            for ext in list(NEST) + NEST_EXTRA:
+                for e in sorted({ext, ext.upper(), ext.lower()}):
+                    for nb in NEST_KINDS:
+                        for segs in ((["n"],) if tier == "quick" else (["n"], ["a", "n"])):
+                            if ext in NEST and NEST_KINDS[nb] == NEST[ext] and e in (ext, ext.upper()):
+                                continue          # enumerated by the loop above
+                            yield {"c": c, "m": [W1, {"n": gname("", "/", e, segs), "t": "REG", "nb": nb}]}
     elif kind == "pairs":
         # two data-carrying members whose names collide (file vs directory of the same name, same file twice, aliases)
         pool = [gname("", "/", ".txt", ["a"]), gname("", "/", ".txt", ["a.txt", "a"]), gname("", "/", "", ["a"]),
@@ -745,6 +851,15 @@ def _small_part(kind):
             yield {"c": c, "m": [W1, big, W2]}
         for coder in ("copy", "lzma"):
             yield {"c": "7z", "m": [W1, big, W2], "o": {"coder": coder}}
+        # the SAME name twice: one entry within the limit, one oversize (both orders) - a decision taken on one entry
+        # must not be applied to the bytes of the other
+        twin = {"n": {"big": 0}, "t": "REG"}
+        for pair in ([twin, big], [big, twin]):
+            for c in ZIPC + TARC:
+                yield {"c": c, "m": pair + [W2]}
+            for coder in ("copy", "lzma"):
+                for layout in ("solid", "per_file"):
+                    yield {"c": "7z", "m": pair + [W2], "o": {"coder": coder, **({"layout": layout} if layout != "solid" else {})}}
     elif kind == "trunc":
         ms = [W1, {"n": gname("", "/", ".txt", [".h"]), "t": "REG"}, {"n": gname("", "/", ".txt", ["a", "a"]), "t": "REG"}]
         for c, limit in (("zip-s", None), ("zip-d", None), ("tar", 3072), ("tar.gz", None), ("tar.bz2", None), ("tar.xz", None), ("7z", None)):
@@ -774,10 +889,11 @@ def parts(tier):
     for c in ZIPC:
         out.append((f"ziptypes:{c}", (2 if quick else 8) if c in PLAIN else 2))
     out.append(("canary", 8))
+    out.append(("attrs7z", 8 if quick else 32))
     out.append(("pairs", 2))
-    out.append(("nested", 2))
+    out.append(("nested", 6 if quick else 16))
     out.append(("trunc", 4))
-    out.append(("oversize", 8))
+    out.append(("oversize", 14))
     return out
 
 
@@ -865,7 +981,9 @@ def run(ctx):
            "outcome_classes": [[k, v] for k, v in top[:40]], "samples": picked, "exhaustive": True,
            "rule": "every archive of the stated grammar (see module docstring: member names prefix x <=D segments x separator x "
                    "extension, canary names, containers zip/tar/7z with member types and 7z stream/bit/attribute/no-streams "
-                   "combinations, oversize members, every truncation of 7 base archives) x every consumer history (exhaust, "
+                   "combinations, 7z attribute words x link-target data x {alone, same name, through} shapes, a real archive of "
+                   "every kind behind every archive-like extension, oversize members alone and next to a small entry of the "
+                   "same name, every truncation of 7 base archives) x every consumer history (exhaust, "
                    "close/abandon/throw after k=0..n, loop-body raise after k=1..n); each history is run on the real "
                    "read_archive under the audit-hook monitor. states = consumer-history prefixes executed, transitions = "
                    "generator steps + monitored file-system events, distinct_nontrivial = distinct (family, history kind, "
@@ -873,7 +991,11 @@ def run(ctx):
            "bounds": {"tier": ctx.tier, **bounds(ctx.tier),
                       "explanation": "D = max name segments on zip-stored / plain tar / 7z; compressed variants (zip-deflated, tar.gz/"
                                      "bz2/xz) one level less; member types and link targets D_types; 7z EmptyStream/dir-attribute "
-                                     "forgeries for names of < D segments, data-stream x no-MainStreamsInfo combinations for all"},
+                                     "forgeries for names of < D segments, data-stream x no-MainStreamsInfo combinations for all; "
+                                     "attr_*: part attrs7z (attribute words x link targets x shapes x {link only, all entries} "
+                                     "x option sets); nested_*: extensions x kinds of real archive x case on that many "
+                                     "containers; same_name_oversize_pairs: archives holding a small and an oversize entry "
+                                     "of one name"},
            "monitor": {"watched_events": M.WATCHED_DOC, "read_whitelist_dirs": wl_dirs, "read_whitelist_files": wl_files,
                        "whitelist_applies_to": "read-only events (open without write mode/flags, os.listdir, os.scandir) only"}}
     assumptions = [
@@ -884,10 +1006,18 @@ def run(ctx):
         "loop-body raise after gc.collect()); (skip:*) must-skip members produce no result",
         "must-skip classification is restricted to clear cases: hidden = basename starts with '.' under both the POSIX and the "
         "Windows reading of the name; macosx = name starts with '__MACOSX/' and contains no '..' or backslash; nested = "
-        "extension .zip (the member is a real zip holding a token); unsupported = extension .bin or none; oversize = 10 MiB + 1 "
-        "byte (the extractor's per-member limit). Members in hidden directories, '__MACOSX' below the top level, backslash-"
+        "the member IS a real archive (zip / 7z / tar / tar.gz / tar.bz2 / tar.xz holding a token) and its name ends in an "
+        "archive extension of the README or of NEST_EXTRA (a real archive named like a document, e.g. n.txt, is not "
+        "enumerated); unsupported = extension .bin or none; oversize = 10 MiB + 1 "
+        "byte (the extractor's per-member limit), judged by the member's content token - a must-skip entry that shares its "
+        "name with an entry that may produce a result is not judged by the result's file_path. Members in hidden directories, '__MACOSX' below the top level, backslash-"
         "separated variants are don't-care (class Z). Skip clauses are not judged for forged 7z entries (phantom / EmptyStream "
-        "/ directory-attribute / no-streams), where the name-to-bytes mapping is undefined",
+        "/ directory-attribute / no-streams), where the name-to-bytes mapping is undefined, nor for 7z entries with a link / "
+        "directory / device attribute word (their data is a link target, it carries no token); whether such an entry "
+        "produces a result (its data is archive content) is not judged, only confinement is",
+        "events that act on a directory entry (remove, rmdir, rename, symlink, link, mkdir, mkfifo, mknod, rmtree) are resolved "
+        "without following a symbolic link in the last path component: deleting or creating a link INSIDE the temporary "
+        "directory is no access to the link's target; every other component is resolved",
         "whether a visible member produces a result, and which exception a hostile or corrupt archive raises, is not judged "
         "here (C10 / C14); a generator that swallows throw() is closed afterwards and only confinement/residue are judged",
         "os.stat/os.path.exists raise no audit event: existence probes of host paths are not observed, only opens/listings; "
